@@ -398,6 +398,16 @@ func ruleR09h(h *H) {
 	h.Rule(rule, "K8", "in TrimSegments every segment removal is guarded by `segment base <= B` (or < B) with B at least one below the trim offset (B <= offset-1 by difference bounds through Floor lookups and ±constants)", 1)
 	for _, fn := range h.P.ImplMethods("server/wal", "ReadOnlySegmentsGroup", "TrimSegments") {
 		h.Fn(ir.FuncName(fn))
+		// a method that only takes the lock and delegates (`trimSegmentsLocked`) is judged in its body
+		if len(fn.Blocks) <= 2 {
+			for _, g := range helperFuncs(fn)[1:] {
+				if g.Signature.Params().Len() == fn.Signature.Params().Len() && len(g.Blocks) > len(fn.Blocks) {
+					fn = g
+					h.Fn(ir.FuncName(fn))
+					break
+				}
+			}
+		}
 		var off *ssa.Parameter
 		for _, p := range fn.Params {
 			if p.Type().String() == "int64" {
@@ -591,6 +601,20 @@ func ruleR09i(h *H) {
 				i++
 				n++
 				name := fmt.Sprintf("reference handed out #%d by %s", i, ir.FuncName(fn))
+				// handed through from another method of the group that is judged itself (a
+				// locking wrapper around a *Locked body)
+				var from *ssa.Call
+				if c0, isC := v.(*ssa.Call); isC {
+					from = c0
+				} else if ex, isEx := v.(*ssa.Extract); isEx {
+					from, _ = ex.Tuple.(*ssa.Call)
+				}
+				if from != nil && !from.Call.IsInvoke() {
+					if g := from.Call.StaticCallee(); g != nil && g != fn && g.Signature.Recv() != nil && ir.SameNamed(g.Signature.Recv().Type(), fn.Signature.Recv().Type()) && g.Signature.Results().Len() > 0 && isRefCount(g.Signature.Results().At(0).Type()) {
+						h.OK(rule, name, h.pos(in), "handed through from "+ir.FuncName(g)+", which is judged itself")
+						return
+					}
+				}
 				acq, isCall := v.(*ssa.Call)
 				if isCall && !acq.Call.IsInvoke() {
 					// a freshly created reference that is not shared with the cache belongs to the caller
